@@ -99,6 +99,11 @@ def scenarios(tier):
     PH = [('set', 'k1', 'x'), ('set', 'k1', 'old1'), ('set', 'k2', 'old2')]
     for r in [('contains', 'k1'), ('get', 'k1'), ('len',), ('items',)] + ([('keys',), ('load',), ('getd', 'k9')] if tier == 'thorough' else []):
         sc.append(dict(name='idle after %s || set k3' % (r,), backend=b, prior=PH, actors=[R(r, linger=True), W(('set', 'k3', 'new3'))], bound=1))
+    # a process whose store fails (a value sqlite cannot bind), which then reads and stays alive, idle: nobody else may be kept out
+    sc.append(dict(name='idle after failed set + contains || set k3', backend=b, prior=PH,
+                   actors=[dict(role='faulty', ops=[('set', 'k9', 2 ** 70), ('contains', 'k1')], cached=False, linger=True), W(('set', 'k3', 'new3'))], bound=1))
+    sc.append(dict(name='idle after failed update || set k3', backend=b, prior=PH,
+                   actors=[dict(role='faulty', ops=[('update', (('k8', 'v8'), ('k9', 2 ** 70)))], cached=False, linger=True), W(('set', 'k3', 'new3'))], bound=1))
     if tier == 'thorough':
         sc.append(dict(name='update k2,k3 || update k4,k5', backend=b, prior=P1,
                        actors=[W(('update', (('k2', 'new2'), ('k3', 'new3')))), W(('update', (('k4', 'new4'), ('k5', 'new5'))))]))
@@ -204,7 +209,7 @@ def check(sc, res):
     # what readers / openers saw
     for i, a in enumerate(sc['actors']):
         r = res['results'][i]
-        if a['role'] == 'writer':
+        if a['role'] in ('writer', 'faulty'):
             continue
         if not isinstance(r, list):
             out.append(('reader-process-failed', {}, 'actor %d returned %r' % (i, r)))
